@@ -755,3 +755,32 @@ package eval
 //@                :pattern ((select (select (heap E_Value) (s_arr ps)) (+ (s_off ps) k)))))))
 //@   ensures [caller-memory-untouched] (forall ((r Int)) (! (=> (< r (old (next))) (= (select (heap E_Value) r) (select (old (heap E_Value)) r))) :pattern ((select (heap E_Value) r))))
 //@   assigns next E_Value sent.* dyn.* last.err
+
+// ---------------------------------------------------------------------------
+// C13 — leaf printing.  The lexer reads a string literal as the raw text between two double quotes (no
+// escapes), so a string constant must be printed raw between quotes; lists are printed element by element,
+// separated by one space, in parentheses.  Texts are built with the uninterpreted strcat / strOfRune / itoa,
+// the specification mirrors the order of the writes.
+//@ ghost (define-fun quoted ((s Int)) Int (strcat (strcat #quote s) #quote))
+//@ ghost (define-fun-rec strListText ((a (Array Int Int)) (o Int) (n Int)) Int
+//@   (ite (<= n 0) (strcat "" (strOfRune 40))
+//@     (let ((p (strListText a o (- n 1))))
+//@       (strcat (ite (= n 1) p (strcat p (strOfRune 32))) (quoted (select a (+ o (- n 1))))))))
+//@ ghost (define-fun-rec intListText ((a (Array Int Int)) (o Int) (n Int)) Int
+//@   (ite (<= n 0) (strcat "" (strOfRune 40))
+//@     (let ((p (intListText a o (- n 1))))
+//@       (strcat (ite (= n 1) p (strcat p (strOfRune 32))) (itoa (select a (+ o (- n 1))))))))
+//@ func dumpLeafNode C13
+//@   requires [node] (not (= $node 0))
+//@   ensures [string-literal-raw-between-quotes] (=> (and (= (KIND $node) 1) (is.string (fld $node value)))
+//@        (and $ret1 (= $ret0 (quoted (p_string (fld $node value))))))
+//@   ensures [string-list] (=> (and (= (KIND $node) 1) (is.slice_string (fld $node value)))
+//@        (let ((l (p_slice_string (fld $node value))))
+//@          (and $ret1 (= $ret0 (strcat (strListText (elems string l) (s_off l) (s_len l)) (strOfRune 41))))))
+//@   ensures [int-list] (=> (and (= (KIND $node) 1) (is.slice_int64 (fld $node value)))
+//@        (let ((l (p_slice_int64 (fld $node value))))
+//@          (and $ret1 (= $ret0 (strcat (intListText (elems int64 l) (s_off l) (s_len l)) (strOfRune 41))))))
+//@   loop 1 (rangeindex)
+//@     invariant [text-so-far] (= (select (heap SB.content) $&sb) (strListText (arr $v) (off $v) (+ $rangeindex 1)))
+//@   loop 2 (rangeindex)
+//@     invariant [text-so-far] (= (select (heap SB.content) $&sb) (intListText (arr $v) (off $v) (+ $rangeindex 1)))
